@@ -14,6 +14,8 @@ import (
 	"os"
 	"testing"
 
+	"time"
+
 	"github.com/aergoio/aergo/v2/config"
 	"github.com/aergoio/aergo/v2/internal/enc/proto"
 	"github.com/aergoio/aergo/v2/types"
@@ -52,7 +54,14 @@ type vsCase struct {
 	Cfg                                            []uint64 // hardfork heights V2..V5 used for writing
 	CfgRead                                        []uint64 // ... used for reading after the restart (nil = same)
 	Best                                           uint64
-	DbJSON                                         string // HF: raw JSON stored under the hardfork key ("" = WriteHardfork(Cfg))
+	DbJSON                                         string        // HF: raw JSON stored under the hardfork key ("" = WriteHardfork(Cfg))
+	Events                                         []vsEventStep // RSQ: restarts interleaved with chain growth
+}
+
+type vsEventStep struct {
+	Op  string   `json:"op"` // "start" | "grow"
+	Cfg []uint64 `json:"cfg,omitempty"`
+	K   uint64   `json:"k,omitempty"`
 }
 
 func vsHex(s string) []byte {
@@ -136,6 +145,8 @@ func TestVerifStoreEngine(t *testing.T) {
 				vsBlock(&c, dir, o)
 			case "HF":
 				vsHardfork(&c, dir, o)
+			case "RSQ":
+				vsRestartSequence(&c, dir, o)
 			}
 		}()
 		b, _ := json.Marshal(o)
@@ -326,4 +337,93 @@ func vsHardfork(c *vsCase, dir string, o map[string]interface{}) {
 	}
 	o["versions_read_written"] = vers
 	o["heights"] = []uint64{rcfg.Height("V2"), rcfg.Height("V3"), rcfg.Height("V4"), rcfg.Height("V5")}
+}
+
+// vsRestartSequence: the real boot-time hardfork check (ChainService.checkHardfork: ChainDB.Hardfork,
+// CheckCompatibility against the best block, WriteHardfork) over a sequence of starts with different
+// configurations, interleaved with chain growth by blocks produced under the running configuration
+// (NewBlockHeaderInfoFromPrevBlock + connectToChain, as the block factories do).  After every step:
+// accepted?, the stored heights, the best block, and for every produced height the version the block
+// was produced with (from its header chain id) against the version the running node reports now.
+func vsRestartSequence(c *vsCase, dir string, o map[string]interface{}) {
+	oldGenesis := Genesis
+	defer func() { Genesis = oldGenesis }()
+	Genesis = types.GetTestGenesis() // private chain: neither mainnet nor testnet
+	var cdb *ChainDB
+	var cs *ChainService
+	var hf *config.HardforkConfig
+	running := false
+	first := true
+	steps := []map[string]interface{}{}
+	for _, ev := range c.Events {
+		st := map[string]interface{}{"op": ev.Op}
+		switch ev.Op {
+		case "start":
+			if cdb != nil {
+				cdb.Close()
+			}
+			cdb = NewChainDB()
+			if err := cdb.Init("memorydb", dir, nil); err != nil {
+				panic(err)
+			}
+			h := *vsCfg(ev.Cfg)
+			hf = &h
+			cs = &ChainService{Core: &Core{cdb: cdb}, cfg: &config.Config{Hardfork: hf}}
+			err := cs.checkHardfork()
+			running = err == nil
+			st["accepted"] = running
+			if err != nil {
+				st["err"] = err.Error()
+			}
+			if running && first {
+				if err := cdb.addGenesisBlock(Genesis); err != nil {
+					panic(err)
+				}
+				first = false
+			}
+		case "grow":
+			if running {
+				to := cdb.getBestBlockNo() + ev.K
+				for cdb.getBestBlockNo() < to {
+					prev, err := cdb.GetBestBlock()
+					if err != nil {
+						panic(err)
+					}
+					bi := types.NewBlockHeaderInfoFromPrevBlock(prev, time.Now().UnixNano(), hf)
+					blk := types.NewBlock(bi, nil, nil, nil, nil, nil)
+					blk.BlockID()
+					tx := cdb.store.NewTx()
+					cdb.connectToChain(tx, blk, false)
+					tx.Commit()
+				}
+			}
+			st["accepted"] = true
+		}
+		st["best"] = cdb.getBestBlockNo()
+		db := cdb.Hardfork(*hf)
+		hs := []uint64{}
+		if len(db) > 0 {
+			for _, k := range []string{"V2", "V3", "V4", "V5"} {
+				hs = append(hs, uint64(db[k]))
+			}
+		}
+		st["stored"] = hs
+		if running {
+			made, now := []int32{}, []int32{}
+			for h := types.BlockNo(1); h <= cdb.getBestBlockNo(); h++ {
+				b, err := cdb.GetBlockByNo(h)
+				if err != nil {
+					panic(err)
+				}
+				made = append(made, types.DecodeChainIdVersion(b.GetHeader().GetChainID()))
+				now = append(now, cs.ChainID(h).Version)
+			}
+			st["made"], st["now"] = made, now
+		}
+		steps = append(steps, st)
+	}
+	if cdb != nil {
+		cdb.Close()
+	}
+	o["steps"] = steps
 }
